@@ -71,6 +71,14 @@ Proof. exists w_version_2p53. split; [reflexivity | exact version_2p53_differs].
 Theorem C18_version_2p63_refuted :
   exists ops, keys_okb (chans ops) (idems ops) = true /\ redis_run cfgS ops <> mem_run cfgS ops.
 Proof. exists w_version_2p63. split; [reflexivity | exact version_2p63_differs]. Qed.
+(* idempotent publish without history: Redis never reports Suppressed *)
+Theorem C18_nohist_idempotent_refuted :
+  exists ops, keys_okb (chans ops) (idems ops) = true /\ redis_run cfgS ops <> mem_run cfgS ops.
+Proof. exists w_nohist_idem. split; [reflexivity | exact nohist_idem_differs]. Qed.
+(* idempotency key used without, then with history: Redis answers an error *)
+Theorem C18_idempotency_cross_mode_refuted :
+  exists ops, keys_okb (chans ops) (idems ops) = true /\ redis_run cfgS ops <> mem_run cfgS ops.
+Proof. exists w_idem_cross. split; [reflexivity | exact idem_cross_differs]. Qed.
 (* reverse history since a position beyond the top (incl. offset 0) *)
 Theorem C18_reverse_since_beyond_top_refuted :
   exists ops, keys_okb (chans ops) (idems ops) = true /\ redis_run cfgS ops <> mem_run cfgS ops.
@@ -79,9 +87,13 @@ Proof. exists w_reverse_beyond. split; [reflexivity | exact reverse_beyond_diffe
 Theorem C18_key_collision_refuted :
   exists ops, keys_okb (chans ops) (idems ops) = false /\ redis_run cfgS ops <> mem_run cfgS ops.
 Proof. exists w_key_collision. split; [reflexivity | exact key_collision_differs]. Qed.
-(* list storage: versions ignored; no reverse; since = MaxUint64 *)
+(* list storage: versions ignored; delta pushes undeliverable; no reverse; since = MaxUint64 *)
 Theorem C18_list_version_refuted : exists ops, redis_run cfgL ops <> mem_run cfgL ops.
 Proof. exists w_list_version. exact list_version_differs. Qed.
+(* list storage + delta: the second delta publication is never delivered by the Redis side *)
+Theorem C18_list_delta_refuted :
+  exists ops, redis_run cfgL ops <> mem_run cfgL ops /\ snd (nth 1 (redis_run cfgL ops) (ResErr, [])) = [].
+Proof. exists w_list_delta. split; [exact list_delta_differs | exact list_delta_second_not_delivered]. Qed.
 Theorem C18_list_reverse_refuted : exists ops, redis_run cfgL ops <> mem_run cfgL ops.
 Proof. exists w_list_reverse. exact list_reverse_differs. Qed.
 Theorem C18_list_since_maxuint_refuted : exists ops, redis_run cfgL ops <> mem_run cfgL ops.
@@ -98,17 +110,6 @@ Example C18_suppressed_publish_ttl_fixed : redis_run cfg100 w_suppressed_ttl = m
 Proof. exact suppressed_ttl_agrees_fixed. Qed.
 Theorem C18_meta_ttl_shorter_refuted : exists cfg ops, redis_run cfg ops <> mem_run cfg ops.
 Proof. exists cfgM, w_meta_shorter. exact meta_shorter_differs. Qed.
-
-(* Three disagreements found by this property are FIXED IN THE MODEL (the Go glue model
-   contains fixes/C18-nohist-idempotent.patch, C18-idem-cross-mode.patch, C18-list-delta.patch);
-   with them the former witnesses agree.  On a tree without the patches the probe cases of the
-   driver fail (finding keys nohist-idem, idem-cross-mode, list-delta). *)
-Example C18_nohist_idempotent_fixed : redis_run cfgS w_nohist_idem = mem_run cfgS w_nohist_idem.
-Proof. exact nohist_idem_agrees_fixed. Qed.
-Example C18_idempotency_cross_mode_fixed : redis_run cfgS w_idem_cross = mem_run cfgS w_idem_cross.
-Proof. exact idem_cross_agrees_fixed. Qed.
-Example C18_list_delta_fixed : redis_run cfgL w_list_delta = mem_run cfgL w_list_delta.
-Proof. exact list_delta_agrees_fixed. Qed.
 
 (* agreement examples outside the proved domain (clock ticks) *)
 Example C18_ticks_example : redis_run cfgS w_agree_ticks = mem_run cfgS w_agree_ticks.
